@@ -368,6 +368,36 @@ theorem valid_full_server (c : VServer) (h : fullServerErr c = none) :
     serverPatchErr c = none ∧ c.isEmptyMsg = false ∧ c.bindings ≠ [] ∧ (∀ b ∈ c.bindings, bindingErr b = none) ∧
     (∀ u ∈ c.users, userErr u = none) := fullServer_none c h
 
+open Mieru.Validate in
+/-- **valid ⇒ ExportOK**: every server of a profile that `ValidateClientConfigSingleProfile` accepts meets the
+    hypotheses of `mierus_roundtrip`, PROVIDED the profile carries a plaintext password (a hashed-only profile is
+    valid but not exportable: the exporter refuses it), its enum numbers are known ones (proto3 enums are open), and
+    no binding sets both `port` and `portRange` (known finding) or writes its range with leading zeros
+    (`Exportable`; `0080-0090` imports as `80-90`). Name, user, host, non-empty bindings, MTU range, protocol and
+    port/range well-formedness all FOLLOW from the validator. -/
+theorem valid_profile_export_ok (isIP : List UInt8 → Bool) (v : VProfile) (s : Server)
+    (hv : profileErr isIP v = none) (hs : s ∈ v.p.servers)
+    (hpw : v.p.password.getD [] ≠ [])
+    (hmux : ∀ l, v.p.multiplexing = some (some l) → 0 ≤ l ∧ l ≤ 4)
+    (hhs : ∀ h, v.p.handshakeMode = some h → 0 ≤ h ∧ h ≤ 2)
+    (hb : ∀ b ∈ s.bindings, Exportable b) : ExportOK v.p s :=
+  valid_export_ok isIP v s hv hs hpw hmux hhs hb
+
+open Mieru.Validate in
+/-- **export → import for every VALID profile** (composition of `valid_profile_export_ok` and `mierus_roundtrip`):
+    for each server of a validated profile the exporter succeeds and importing its link yields `imported`. -/
+theorem valid_profile_mierus_roundtrip (isIP tpOK : List UInt8 → Bool) (v : VProfile) (s : Server)
+    (hv : profileErr isIP v = none) (hs : s ∈ v.p.servers)
+    (hpw : v.p.password.getD [] ≠ [])
+    (hmux : ∀ l, v.p.multiplexing = some (some l) → 0 ≤ l ∧ l ≤ 4)
+    (hhs : ∀ h, v.p.handshakeMode = some h → 0 ≤ h ∧ h ≤ 2)
+    (hb : ∀ b ∈ s.bindings, Exportable b)
+    (htp : ∀ tp, v.p.trafficPattern = some tp → tpOK tp = true) :
+    ∃ l, profileToLink v.p s = .ok l ∧
+      urlToProfile isIP tpOK (parsedOf v.p s l.rawQuery) = .ok (imported isIP v.p s) :=
+  let ⟨l, h1, h2, _⟩ := mierus_roundtrip isIP tpOK v.p s (valid_export_ok isIP v s hv hs hpw hmux hhs hb) htp
+  ⟨l, h1, h2⟩
+
 end Mieru.C20
 
 /-! ## Non-vacuity -/
